@@ -33,7 +33,13 @@ type serverConn struct {
 	parser   parser.Parser
 
 	closeOnce sync.Once
-	debug     Debugger
+	// Set by onClose. A namespace middleware can still be running
+	// at that time, and admits its socket only afterwards.
+	closed      bool
+	closeReason Reason
+	closedMu    sync.Mutex
+
+	debug Debugger
 }
 
 func newServerConn(
@@ -161,6 +167,15 @@ func (c *serverConn) connect(header *parser.PacketHeader, decode parser.Decode) 
 
 	c.sockets.set(socket)
 	c.nsps.set(nsp)
+
+	// The connection may have been closed while the middlewares were running.
+	// onClose didn't know about this socket back then, so close it now.
+	c.closedMu.Lock()
+	closed, reason := c.closed, c.closeReason
+	c.closedMu.Unlock()
+	if closed {
+		socket.onClose(reason)
+	}
 }
 
 func (c *serverConn) connectError(message any, nsp string) {
@@ -235,6 +250,11 @@ func (c *serverConn) onClose(reason Reason, err error) {
 	// We don't want it to close more than once,
 	// so we use sync.Once to avoid running onClose more than once.
 	c.closeOnce.Do(func() {
+		c.closedMu.Lock()
+		c.closed = true
+		c.closeReason = reason
+		c.closedMu.Unlock()
+
 		sockets := c.sockets.getAndRemoveAll()
 		for _, socket := range sockets {
 			socket.onClose(reason)
